@@ -18,7 +18,7 @@ LEVEL = "exploration"
 ENGINE = "simsched"
 TIERS = {
     "quick": {"runs": 2400, "budget_s": 75, "chunk": 4},
-    "thorough": {"runs": 12000, "budget_s": 1500, "chunk": 4},
+    "thorough": {"runs": 80000, "budget_s": 1500, "chunk": 8},
 }
 RULE = ("one evaluation = one seeded run of one workload: A) 250 SimpleBatcher configurations "
         "(n 1-400, batch size incl. 1/non-dividing/larger than the set/None, validation ratio incl. "
